@@ -162,7 +162,7 @@ theorem dotComponent_num_head {s : List Char} {n : Nat} (h : (dotComponent s).1 
   · cases h
 
 theorem partialVersion_ids {s r : List Char} {p : Partial} (h : partialVersion s = some (p, r)) : p.idsOK := by
-  unfold partialVersion at h
+  unfold partialVersion partialCore at h
   simp only at h
   split at h
   · cases h
